@@ -19,6 +19,7 @@ import (
 	"io"
 	"runtime"
 	"strings"
+	"sync/atomic"
 	"testing"
 	"time"
 
@@ -82,25 +83,19 @@ func verifC16HBFor(max int) []byte {
 }
 
 type verifC16Built struct {
-	items    []verifC16Item
-	expected []byte
-	hbAt     map[int]bool // stream offsets at which a heartbeat sits between data
-	nData    int          // data messages that count towards expected
-	stopper  string       // "", "oversize", "eof", "err", "data+err"
-	tailLen  int          // bytes that come with the terminal error
-	hb       []byte
+	items []verifC16Item
+	hb    []byte
 }
 
+// build turns the case into the stream script.  What the reader must receive is NOT predicted here: it is
+// taken from what the scripted stream actually handed to the stack (verifC16Stream.Expected), so the
+// oracle does not depend on guessing which buffer the stack offers for which message.
 func (c verifC16StreamCase) build() verifC16Built {
-	b := verifC16Built{hbAt: map[int]bool{}, hb: verifC16HBFor(c.Max)}
+	b := verifC16Built{hb: verifC16HBFor(c.Max)}
 	off := 0
-	stopped := false
 	for _, m := range c.Msgs {
 		if m.Kind == "h" {
 			b.items = append(b.items, verifC16Item{Kind: "hb", Data: b.hb})
-			if !stopped {
-				b.hbAt[off] = true
-			}
 			continue
 		}
 		data := make([]byte, m.Size)
@@ -122,16 +117,6 @@ func (c verifC16StreamCase) build() verifC16Built {
 			data[0] ^= 0xFF
 		}
 		b.items = append(b.items, verifC16Item{Kind: "data", Data: data})
-		if stopped {
-			continue
-		}
-		if m.Size > c.Max {
-			stopped = true
-			b.stopper = "oversize"
-			continue
-		}
-		b.expected = append(b.expected, data...)
-		b.nData++
 		off += m.Size
 	}
 	switch c.End {
@@ -146,13 +131,6 @@ func (c verifC16StreamCase) build() verifC16Built {
 			data[0] ^= 0xFF
 		}
 		b.items = append(b.items, verifC16Item{Kind: "data+err", Data: data, Err: errVerifC16Injected})
-		if !stopped {
-			b.expected = append(b.expected, data...)
-			b.tailLen = len(data)
-		}
-	}
-	if !stopped && c.End != "stall" {
-		b.stopper = c.End
 	}
 	return b
 }
@@ -161,15 +139,17 @@ type verifC16ReadResult struct {
 	got   []byte
 	err   error
 	reads int
-	zero  int // reads that returned (0, nil)
+	zero  int  // reads that returned (0, nil)
+	quit  bool // the reader stopped because everything the stream will ever deliver has arrived
 }
 
-// verifC16Reader reads with the scripted buffer sizes until the first error, or – when the script has no
-// stopper – until want bytes arrived.
-func verifC16Reader(r io.Reader, sizes []int, want int, untilErr bool, pauses []time.Duration) verifC16ReadResult {
+// verifC16Reader reads with the scripted buffer sizes until the first error; complete(n) tells it that the
+// n bytes it has are all there will ever be (a stream that stalls instead of ending).
+func verifC16Reader(r io.Reader, sizes []int, pauses []time.Duration, progress *atomic.Int64, complete func(n int) bool) verifC16ReadResult {
 	var res verifC16ReadResult
 	for i := 0; ; i++ {
-		if !untilErr && len(res.got) >= want {
+		if complete(len(res.got)) {
+			res.quit = true
 			return res
 		}
 		if len(pauses) > 0 {
@@ -183,6 +163,7 @@ func verifC16Reader(r io.Reader, sizes []int, want int, untilErr bool, pauses []
 		n, err := r.Read(buf)
 		res.reads++
 		res.got = append(res.got, buf[:n]...)
+		progress.Store(int64(len(res.got)))
 		if err != nil {
 			res.err = err
 			return res
@@ -203,6 +184,7 @@ const verifC16StreamWatchdog = 25 * time.Second
 func verifC16RunStream(rec *kit.Rec, cs verifC16StreamCase, pauses []time.Duration) string {
 	b := cs.build()
 	st := newVerifC16Stream(b.items...)
+	st.MaxDeclared = cs.Max
 	nop := &verifC16NopConn{}
 	t0 := time.Now()
 
@@ -232,28 +214,46 @@ func verifC16RunStream(rec *kit.Rec, cs verifC16StreamCase, pauses []time.Durati
 	}
 	defer conn.Close()
 
-	untilErr := b.stopper != ""
 	if cs.Mode == "lazy" && hbs != nil {
 		// a reader that is slower than the stream: start reading only when the receive loop has taken
 		// everything the script holds (or filled its queue) and – if the stream ended – has closed.
 		st.WaitState(3*time.Second, func(s verifC16StreamState) bool {
-			if len(hbs.recvCh) == cap(hbs.recvCh) {
-				return true
-			}
-			if untilErr {
-				return verifC16ChanClosed(hbs.closed)
-			}
-			return s.Consumed == s.Total && len(hbs.recvCh) >= b.nData
+			return len(hbs.recvCh) == cap(hbs.recvCh) || verifC16ChanClosed(hbs.closed) || (s.Consumed == s.Total && cs.End == "stall")
 		})
-		if untilErr {
+		if cs.End != "stall" {
 			for i := 0; i < 2000 && !verifC16ChanClosed(hbs.closed) && len(hbs.recvCh) < cap(hbs.recvCh); i++ {
 				time.Sleep(time.Millisecond)
+			}
+		} else {
+			for i := 0; i < 20; i++ {
+				runtime.Gosched()
 			}
 		}
 	}
 
+	var progress atomic.Int64
+	var readerDone atomic.Bool
+	// everything has arrived: the stream returned no error, the stack has taken the whole script, and the
+	// reader holds as many bytes as the stack was given
+	allArrived := func(n int) bool {
+		s := st.State()
+		return s.FirstErr == nil && s.Consumed == s.Total && n >= s.ExpLen
+	}
 	done := make(chan verifC16ReadResult, 1)
-	go func() { done <- verifC16Reader(conn, cs.Reads, len(b.expected), untilErr, pauses) }()
+	go func() {
+		r := verifC16Reader(conn, cs.Reads, pauses, &progress, allArrived)
+		readerDone.Store(true)
+		done <- r
+	}()
+	// a reader blocked in Read after the last byte (e.g. trailing heartbeats consumed later) is released by closing
+	go func() {
+		st.WaitState(verifC16StreamWatchdog+10*time.Second, func(verifC16StreamState) bool {
+			return readerDone.Load() || allArrived(int(progress.Load()))
+		})
+		if !readerDone.Load() && allArrived(int(progress.Load())) {
+			conn.Close()
+		}
+	}()
 	var res verifC16ReadResult
 	timedOut := false
 	select {
@@ -267,8 +267,9 @@ func verifC16RunStream(rec *kit.Rec, cs verifC16StreamCase, pauses []time.Durati
 		queued = len(hbs.recvCh)
 	}
 	state := st.State()
+	expected, hbAt := st.Expected()
 	detail := func(extra map[string]interface{}) map[string]interface{} {
-		d := map[string]interface{}{"case": cs.String(), "expected_bytes": len(b.expected), "stopper": b.stopper,
+		d := map[string]interface{}{"case": cs.String(), "bytes_handed_to_stack": len(expected), "stream_error": verifC16ErrString(state.FirstErr),
 			"script_items": state.Total, "items_taken_by_stack": state.Consumed, "elapsed_ms": elapsed.Milliseconds()}
 		if hbs != nil {
 			d["messages_still_queued_in_recvCh"] = queued
@@ -283,7 +284,8 @@ func verifC16RunStream(rec *kit.Rec, cs verifC16StreamCase, pauses []time.Durati
 		// the reader is blocked.  Judge only a stable state: the stack took the whole script and nothing moves.
 		conn.Close()
 		res = <-done
-		if elapsed > 20*time.Second && state.Consumed == state.Total && len(res.got) < len(b.expected) && b.stopper == "" {
+		readerDone.Store(true)
+		if state.Consumed == state.Total && len(res.got) < len(expected) && state.FirstErr == nil && bytes.HasPrefix(expected, res.got) {
 			rec.Violation("stream:"+cs.Variant+":bytes-missing-without-error", "the stack consumed every scripted message but the reader never received all their bytes (and no error)",
 				detail(map[string]interface{}{"got_bytes": len(res.got), "reads": res.reads}))
 			return "violation"
@@ -296,32 +298,37 @@ func verifC16RunStream(rec *kit.Rec, cs verifC16StreamCase, pauses []time.Durati
 		rec.Inconclusive("stream case took too long to be judged", detail(nil))
 		return "inconclusive"
 	}
+	if state.RefusedIn > 0 {
+		rec.Violation("stream:"+cs.Variant+":message-within-max-size-refused", "the stack offered the stream a buffer smaller than the maximum message size: a legal message was discarded",
+			detail(map[string]interface{}{"refused": state.RefusedIn}))
+		return "violation"
+	}
 
 	got := res.got
 	switch {
-	case !bytes.HasPrefix(b.expected, got):
-		d := verifC16FirstDiff(b.expected, got)
+	case !bytes.HasPrefix(expected, got):
+		d := verifC16FirstDiff(expected, got)
 		sig := "stream:" + cs.Variant + ":bytes-differ"
 		msg := "the bytes returned by Read are not a prefix of the concatenation of the peer's messages (loss inside the stream, duplication, reordering or foreign bytes)"
-		if b.hb != nil && b.hbAt[d] && bytes.HasPrefix(got[d:], b.hb[:verifC16Min(len(b.hb), len(got)-d)]) {
+		if b.hb != nil && hbAt[d] && bytes.HasPrefix(got[d:], b.hb[:verifC16Min(len(b.hb), len(got)-d)]) {
 			sig = "stream:" + cs.Variant + ":heartbeat-surfaced-as-data"
 			msg = "a keep-alive heartbeat payload was returned to the reader as data"
 		}
 		rec.Violation(sig, msg, detail(map[string]interface{}{"got_bytes": len(got), "first_diff": d,
-			"got_at_diff": kit.HexN(got[d:], 16), "want_at_diff": kit.HexN(b.expected[d:], 16), "err": verifC16ErrString(res.err)}))
+			"got_at_diff": kit.HexN(got[d:], 16), "want_at_diff": kit.HexN(expected[d:], 16), "err": verifC16ErrString(res.err)}))
 		return "violation"
-	case len(got) < len(b.expected):
-		// only reachable with res.err != nil (the reader stops early only on an error)
-		missing := len(b.expected) - len(got)
+	case len(got) < len(expected):
+		// the reader stops early only on an error: an error overtook data
+		missing := len(expected) - len(got)
 		ex := map[string]interface{}{"got_bytes": len(got), "missing_bytes": missing, "err": verifC16ErrString(res.err), "reads": res.reads}
 		switch {
 		case cs.Variant == "server" && queued > 0:
 			rec.Violation("stream:server:close-overtook-queued-messages",
 				"Read reported the end of the stream although messages received BEFORE the error were still queued (hbConn.Read: select between closed and recvCh)", detail(ex))
-		case cs.Variant == "server" && b.tailLen > 0 && missing == b.tailLen:
+		case cs.Variant == "server" && state.TailLen > 0 && missing == state.TailLen:
 			rec.Violation("stream:server:data-with-error-dropped",
 				"the bytes the stream returned together with its error never reached the reader (hbConn.recvLoop discards n>0 when err!=nil)", detail(ex))
-		case cs.Variant == "client" && b.tailLen > 0 && missing <= b.tailLen:
+		case cs.Variant == "client" && state.TailLen > 0 && missing <= state.TailLen:
 			rec.Violation("stream:client:data-with-error-lost", "SCTPConn.Read reported the stream error before all bytes that came with it", detail(ex))
 		default:
 			rec.Violation("stream:"+cs.Variant+":data-lost-before-error", "an error was reported before all data that preceded it in the stream", detail(ex))
@@ -331,9 +338,9 @@ func verifC16RunStream(rec *kit.Rec, cs verifC16StreamCase, pauses []time.Durati
 	if res.zero > 0 {
 		rec.Count("empty_reads", res.zero)
 	}
-	if b.stopper != "" && res.err == nil {
-		rec.Inconclusive("reader ended without the expected error", detail(nil))
-		return "inconclusive"
+	rec.Count("bytes_compared", len(got))
+	if state.RefusedLg > 0 {
+		rec.Count("oversize_messages_refused", state.RefusedLg)
 	}
 	return "ok"
 }
